@@ -294,6 +294,33 @@ pub fn eval_c14(st: &State) -> Eval {
                         let symref = wf.compute_face_integrals_sym::<FaceRec>();
                         check_data_delivery(&mut e, check, st, &case, &extra, &wf, cells, faces, &symref, "with-faces");
                     }
+                    // ... and a cell whose faces were derived and discarded again is fed exactly like the cell that never
+                    // had faces (bitwise)
+                    if let Some((ca, fa)) = &a {
+                        let mut k = 0usize;
+                        let mut kf = 0usize;
+                        for c in wf.cells_iter() {
+                            match guarded(|| {
+                                let back = c.clone().discard_faces();
+                                (back.compute_cell_integral::<(), CellRec>(()), back.compute_face_integrals::<(), FaceRec>(()))
+                            }) {
+                                Err(p) => {
+                                    e.issue("integral-after-round-trip-panics", &case, format!("cell {}: with_faces().discard_faces() then an integral: {}", c.idx, p.msg), rp());
+                                    break;
+                                }
+                                Ok((rc, rf)) => {
+                                    let same_cell = ca.get(k).map_or(false, |x| x.cell_idx == rc.cell_idx && x.tets == rc.tets && x.m.iter().zip(rc.m.iter()).all(|(p, q)| p.to_bits() == q.to_bits()));
+                                    let same_faces = rf.iter().enumerate().all(|(j, f)| fa.get(kf + j).map_or(false, |g| g.left() == f.left() && g.right() == f.right() && g.integral().area.to_bits() == f.integral().area.to_bits() && g.integral().tris == f.integral().tris));
+                                    if !same_cell || !same_faces {
+                                        e.issue("integrals-differ-after-round-trip", &case, format!("cell {}: with_faces().discard_faces() is fed {} tetrahedra (volume {:e}); the cell that never had faces {} (volume {:e}); faces equal: {}", c.idx, rc.tets, rc.m[0], ca.get(k).map_or(0, |x| x.tets), ca.get(k).map_or(f64::NAN, |x| x.m[0]), same_faces), rp());
+                                        break;
+                                    }
+                                    kf += rf.len();
+                                }
+                            }
+                            k += 1;
+                        }
+                    }
                     // with vs without faces agree up to rounding
                     if let (Some((ca, _)), Some((cb, _))) = (&a, &b) {
                         for (x, y) in ca.iter().zip(cb.iter()) {
